@@ -36,7 +36,9 @@ ASSUMPTIONS = [
     "levels are compared for power ratios > 0; subtraction is judged for a - b >= 0.5 dB (cancellation)",
     "unit tokens are generated only if, by the tables alone, they denote the intended unit (the parser is not consulted)",
     "every judged conversion names its target in one of eight ways (string, BaseUnits, dict, Quantity of magnitude 1 or tm, "
-    "Unit().attr, Unit(v), tm*Unit(v)); for Quantity targets the expected value is the documented one divided by tm and "
+    "Unit().attr, Unit(v), tm*Unit(v)), conversions to unprefixed kelvin also by its dimension vector (list) or Dimensions "
+    "object - a dimension vector names base units, and kelvin is the only base unit in this property's domain (a level "
+    "unit converted to the base-unit expansion of W, V, ... is not a documented pair and is refused by the code); for Quantity targets the expected value is the documented one divided by tm and "
     "value() (which takes no Quantity) is not called",
     "level histories follow `a += b` / `a -= b` as a = a + b / a = a - b; a subtraction whose operands have come closer "
     "than 0.5 dB is dropped before running; the absolute tolerance grows by 1e-11/prefix per augmented step",
@@ -267,7 +269,9 @@ def run_conv_cases(ctx, cat, cases):
     for c in usable:
         if c["spec"] is not None and "form" not in c:
             # the target unit named in every supported way (string, BaseUnits, dict, Quantity, Unit().attr, Unit(v), tm*Unit(v))
-            c["form"] = ctx.rng.choice(C4.FORMS)
+            # (a dimension vector names base units: in this property's domain only kelvin is one)
+            forms = C4.FORMS if c["iv"] == [(None, "K", (1, 1))] else [f for f in C4.FORMS if f not in C4.DIM_FORMS]
+            c["form"] = ctx.rng.choice(forms)
             c["tm"] = ctx.rng.choice(C4.TARGET_MAGS) if c["form"] in ("qm", "scaled-unit") else \
                 (1.0 if c["form"] in C4.QUANTITY_FORMS else None)
         c.setdefault("form", "str")
